@@ -89,7 +89,11 @@ class Struct( BaseRTLIRDataType ):
       # s.file_info = "Not available"
 
   def __eq__( s, u ):
-    return isinstance(u, Struct) and s.get_full_name() == u.get_full_name()
+    # The full name alone does not identify a struct: class S with fields
+    # a, b and class S__a_4 with field b have the same full name
+    return isinstance(u, Struct) and s.get_full_name() == u.get_full_name() and \
+           s.cls.__name__ == u.cls.__name__ and \
+           list( s.properties.items() ) == list( u.properties.items() )
 
   def __hash__( s ):
     return hash((type(s), s.get_full_name()))
